@@ -3,6 +3,7 @@ package srvworld
 import (
 	"fmt"
 	"os"
+	"regexp"
 	"runtime/pprof"
 	"sort"
 	"strconv"
@@ -216,6 +217,9 @@ func runProp(t *testing.T, ps *propSpec) {
 		reps := 1
 		if strings.Contains(f, "sched-") {
 			reps = 6 // the outcome depends on which goroutine runs first at one virtual instant
+		}
+		if m := regexp.MustCompile(`sched(\d+)-`).FindStringSubmatch(f); m != nil {
+			reps, _ = strconv.Atoi(m[1]) // (a rarer schedule: more repetitions)
 		}
 		for i := 0; i < reps; i++ {
 			res := runCase(t, rf.Script, false)
